@@ -387,4 +387,27 @@ def lowerStable (T : Tabs) (c : Nat) : Bool := T.lowerC c == [c] && c != 383 && 
 /-- the instances the theorems use -/
 def wordsOf (T : Tabs) (r : RTV.Re.RE) : List Str := (sampleLang (lowerStable T) 400 r).eraseDups
 
+/-! ### a method with one of its regexes replaced (labelled variants: the pre-fix form of a repaired configuration is
+the regenerated method with the regex it used to hold put back) -/
+
+def BE.substRe (old new : RTV.Re.RE) : BE → BE
+  | .reSearch r s => .reSearch (if r = old then new else r) s
+  | .reMatch r s => .reMatch (if r = old then new else r) s
+  | .reFull r s => .reFull (if r = old then new else r) s
+  | .and a b => .and (a.substRe old new) (b.substRe old new)
+  | .or a b => .or (a.substRe old new) (b.substRe old new)
+  | .not a => .not (a.substRe old new)
+  | e => e
+
+def FE.substRe (old new : RTV.Re.RE) : FE → FE
+  | .bool e => .bool (e.substRe old new)
+  | f => f
+
+def VE.substRe (old new : RTV.Re.RE) : VE → VE
+  | .ite c a b => .ite (c.substRe old new) (a.substRe old new) (b.substRe old new)
+  | .ret f => .ret (f.substRe old new)
+  | .record fs => .record (fs.map (FE.substRe old new))
+
+def Method.withRe (m : Method) (old new : RTV.Re.RE) : Method := { m with body := m.body.substRe old new }
+
 end RTV.CultureCfg
